@@ -563,3 +563,29 @@ func (c *Ctx) neverNilError(fn *ssa.Function, depth int) bool {
 	}
 	return true
 }
+
+// varargOperands: the terms stored into the array behind a variadic argument slice (`f(a, b...)` packs its
+// operands into a fresh array); ok is false when v is not such a packed slice.
+func varargOperands(c *Ctx, v ssa.Value) ([]string, bool) {
+	sl, ok := v.(*ssa.Slice)
+	if !ok {
+		return nil, false
+	}
+	al, ok := sl.X.(*ssa.Alloc)
+	if !ok || al.Referrers() == nil {
+		return nil, false
+	}
+	var ops []string
+	for _, ref := range *al.Referrers() {
+		ia, ok := ref.(*ssa.IndexAddr)
+		if !ok || ia.Referrers() == nil {
+			continue
+		}
+		for _, r2 := range *ia.Referrers() {
+			if st, ok := r2.(*ssa.Store); ok {
+				ops = append(ops, c.term(st.Val))
+			}
+		}
+	}
+	return ops, true
+}
